@@ -101,6 +101,21 @@ def check(ctx):
             ctx.violation("eq:equal_fields_unequal", "contracts with equal fields compare unequal or hash differently", payload)
         exprs.append(f"Bool.eqb (@IoContract_eq (poly_domain (fun _ => LpMiss)) (mk_pc _ {pc.cfields(c)}) (mk_pc _ {pc.cfields(c)})) true")
         cases.append(payload)
+        # a history: build without simplification, hash (use as a set member), simplify IN PLACE, compare with the same
+        # contract built simplified and with a copy -- equal objects must still hash equally
+        try:
+            raw = gen.mkcontract(copy.deepcopy(c), simplify=False)
+            h_before = hash(raw)
+            raw.simplify()
+            ref = gen.mkcontract(copy.deepcopy(c), simplify=True)
+            for other_name, other in (("built simplified", ref), ("its copy", raw.copy())):
+                if raw == other and hash(raw) != hash(other):
+                    ctx.violation("eq:equal_but_different_hash_after_simplify", "a contract hashed before an in-place simplify() is equal to "
+                                  + other_name + " but hashes differently", dict(payload, hash_before=h_before))
+            hist["inplace_simplify:" + ("changed_hash" if hash(raw) != h_before else "same_hash")] = \
+                hist.get("inplace_simplify:" + ("changed_hash" if hash(raw) != h_before else "same_hash"), 0) + 1
+        except ValueError:
+            pass
         objs = [base, twin, cp] + [o for _, _, o in others[:2]]
         for x in objs:
             for y in objs:
